@@ -45,7 +45,7 @@ def time_opts(draw, spec):
 def strategy(tier):
     @st.composite
     def s(draw):
-        spec = draw(gen.dataset(max_inputs=2, clim=False, flavor="det", core_max=4, extra_max=1, allow_drop=False,
+        spec = draw(gen.dataset(max_inputs=2, clim=False, flavor="det", core_max=4, extra_max=1, allow_drop=False, pre1970=True,
                                 allow_all_missing=False, half_hours=draw(st.booleans())))
         return {"spec": spec, "opts": draw(time_opts(spec))}
     return s()
@@ -172,7 +172,7 @@ def _check_api(case, ctx):
 def csv_strategy(tier):
     @st.composite
     def s(draw):
-        spec = draw(gen.dataset(max_inputs=2, clim=False, flavor="det", core_max=4, extra_max=1, allow_drop=False,
+        spec = draw(gen.dataset(max_inputs=2, clim=False, flavor="det", core_max=4, extra_max=1, allow_drop=False, pre1970=True,
                                 allow_all_missing=False, allow_obsless=False, half_hours=draw(st.booleans())))
         return {"spec": spec, "axis": draw(st.sampled_from(ALL_AXES)), "kind": draw(st.sampled_from(["text", "netcdf"]))}
     return s()
